@@ -1,1 +1,407 @@
-"""placeholder"""
+"""Parser wiring rules: R-LISTENERS (with the start-rule clause), R-HANDLERS, R-ESCAPE, R-ALIAS."""
+from __future__ import annotations
+
+import ast
+from typing import Optional
+
+from ..cfg import cfg_of
+from ..gram import grammars, literals_of, rule_refs
+from ..model import AnalysisError, ClassInfo, FuncInfo, annotation_name, norm, short
+from ..report import Finding, RuleResult
+from . import rule
+from .common import assigned_names, closure, entry, own_walk, params_of, single_def, sites, try_const
+from .readers import reader_entries
+
+PUNCT = {"/", "(", ")", "-", ":", ",", "="}
+
+
+def _listener_impl(ctx) -> ClassInfo:
+    par = ctx.repo.module("tucan.parser.parser")
+    for ci in par.classes.values():
+        if any(b.endswith("tucanListener") for b in ctx.repo.base_names(ci)):
+            return ci
+    raise AnalysisError("listener implementation vanished")
+
+
+def _parser_exception(ctx) -> ClassInfo:
+    par = ctx.repo.module("tucan.parser.parser")
+    ci = par.classes.get("TucanParserException")
+    if ci is None:
+        raise AnalysisError("TucanParserException vanished")
+    return ci
+
+
+def _always_raises(ctx, fi: FuncInfo, exc: ClassInfo) -> tuple[bool, str]:
+    """every path through fi ends in `raise <exc>(..)`"""
+    cfg = cfg_of(fi.node)
+    if cfg.reachable(cfg.ENTRY, cfg.EXIT):
+        p = cfg.path_avoiding(cfg.ENTRY, cfg.EXIT, [])
+        return False, "a path returns normally: " + " ; ".join(cfg.describe(x) for x in (p or [])[1:-1])
+    raises = [n for n in own_walk(fi.node) if isinstance(n, ast.Raise)]
+    if not raises:
+        return False, "no raise statement"
+    for r in raises:
+        e = r.exc
+        callee = e.func if isinstance(e, ast.Call) else e
+        rr = ctx.repo.resolve_dotted(fi.module, callee) if callee is not None else None
+        if not (rr and rr[0] == "class" and rr[1].fq == exc.fq):
+            return False, f"`{short(r)}` raises something other than {exc.name}"
+    return True, f"always raises {exc.name}"
+
+
+@rule("R-LISTENERS")
+def r_listeners(ctx) -> RuleResult:
+    res = RuleResult("R-LISTENERS", "on every path of graph_from_tucan to the start-rule call: default error listeners removed and a listener whose syntaxError unconditionally raises the parser's exception added, on lexer and parser; fresh stream/lexer/parser/listener per call; the rule invoked ends in EOF")
+    repo = ctx.repo
+    exc = _parser_exception(ctx)
+    ent = entry(ctx, "parse")
+    clo = closure(ctx, "parse")
+    # constructors of the generated classes
+    built = {}
+    for fi in clo:
+        for n in own_walk(fi.node):
+            if isinstance(n, ast.Assign) and isinstance(n.value, ast.Call) and isinstance(n.targets[0], ast.Name):
+                r = repo.resolve_dotted(fi.module, n.value.func)
+                q = None
+                if r and r[0] == "ext":
+                    q = r[1]
+                elif r and r[0] == "class":
+                    q = r[1].fq
+                elif r is None and isinstance(n.value.func, ast.Name):
+                    imp = fi.module.imports.get(n.value.func.id)
+                    q = f"{imp[0]}.{imp[1]}" if imp and imp[1] else None
+                if q and q.endswith((".tucanLexer", ".tucanParser")):
+                    built[q.rsplit(".", 1)[1]] = (fi, n.targets[0].id, n)
+    for cls in ("tucanLexer", "tucanParser"):
+        if cls not in built:
+            raise AnalysisError(f"R-LISTENERS: no `{cls}(...)` construction in the closure of graph_from_tucan")
+    for cls, (fi, var, node) in built.items():
+        fn = fi.node
+        cfg = cfg_of(fn)
+        rets = [n for n in own_walk(fn) if isinstance(n, ast.Return)]
+        removes = [n for n in own_walk(fn) if isinstance(n, ast.Call) and isinstance(n.func, ast.Attribute) and n.func.attr == "removeErrorListeners"
+                   and isinstance(n.func.value, ast.Name) and n.func.value.id == var]
+        adds = [n for n in own_walk(fn) if isinstance(n, ast.Call) and isinstance(n.func, ast.Attribute) and n.func.attr == "addErrorListener"
+                and isinstance(n.func.value, ast.Name) and n.func.value.id == var]
+        what = "lexer" if cls == "tucanLexer" else "parser"
+        ok_rm = bool(removes) and all(any(cfg.dominates(cfg.stmt_node_containing(r), cfg.node_of(ret)) for r in removes) for ret in rets)
+        res.inst(fi.fq, f"{what}: default error listeners removed on every path", "ok" if ok_rm else "fail")
+        if not ok_rm:
+            res.fail(Finding("R-LISTENERS", fi.module.rel, fi.qualname, f"{var}.removeErrorListeners()",
+                             f"the {what}'s default console listener is not removed on every path: recognition errors are printed and recovered from, the input is silently altered", line=node.lineno))
+        good_adds = []
+        for a in adds:
+            arg = a.args[0] if a.args else None
+            lcls = None
+            if isinstance(arg, ast.Call):
+                r = repo.resolve_dotted(fi.module, arg.func)
+                if r and r[0] == "class":
+                    lcls = r[1]
+            if lcls is None:
+                continue
+            se = repo.mro_method(lcls, "syntaxError")
+            if se is None:
+                res.inst(fi.fq, f"{what}: listener {lcls.name}", "fail", detail="no syntaxError override")
+                res.fail(Finding("R-LISTENERS", fi.module.rel, fi.qualname, norm(a), f"listener {lcls.name} does not override syntaxError: errors are ignored", line=a.lineno))
+                continue
+            ok, why = _always_raises(ctx, se, exc)
+            res.inst(se.fq, f"{what}: {lcls.name}.syntaxError {why}", "ok" if ok else "fail")
+            if not ok:
+                res.fail(Finding("R-LISTENERS", se.module.rel, se.qualname, "syntaxError", f"{what} error listener does not unconditionally raise {exc.name}: {why}", line=se.node.lineno))
+            else:
+                good_adds.append(a)
+        ok_add = bool(good_adds) and all(any(cfg.dominates(cfg.stmt_node_containing(a), cfg.node_of(ret)) for a in good_adds) for ret in rets)
+        # the add must come after the remove (otherwise it is removed again)
+        ok_order = ok_add and all(any(cfg.dominates(cfg.stmt_node_containing(r), cfg.stmt_node_containing(a)) for r in removes) for a in good_adds) if removes else ok_add
+        res.inst(fi.fq, f"{what}: raising listener registered after the removal on every path", "ok" if ok_add and ok_order else "fail")
+        if not ok_add:
+            res.fail(Finding("R-LISTENERS", fi.module.rel, fi.qualname, f"{var}.addErrorListener(...)",
+                             f"no raising error listener is registered on the {what} on every path: a syntax error does not become {exc.name}", line=node.lineno))
+        elif not ok_order:
+            res.fail(Finding("R-LISTENERS", fi.module.rel, fi.qualname, f"{var}.removeErrorListeners()", f"the {what}'s raising listener is registered before the listeners are cleared", line=node.lineno))
+        # constructed from the call's own argument: InputStream(<param>) -> lexer -> CommonTokenStream -> parser
+        fresh = not any(isinstance(d, ast.Name) and ctx.repo.resolve(fi.module, d.id) and ctx.repo.resolve(fi.module, d.id)[0] == "const" for d in ast.walk(node.value))
+        res.inst(fi.fq, f"{what} object is built inside the call ({short(node)})", "ok" if fresh else "fail")
+        if not fresh:
+            res.fail(Finding("R-LISTENERS", fi.module.rel, fi.qualname, norm(node), f"the {what} is built from a module-level object: state is shared between calls", line=node.lineno))
+    # module-level lexer / parser / listener instances (shared between calls)
+    par = repo.module("tucan.parser.parser")
+    for name, val in par.assigns.items():
+        if isinstance(val, ast.Call):
+            r = repo.resolve_dotted(par, val.func)
+            t = norm(val.func)
+            if any(k in t for k in ("tucanLexer", "tucanParser", "ListenerImpl", "ParseTreeWalker", "InputStream", "CommonTokenStream")):
+                res.inst(par.name, f"module-level `{name} = {short(val)}`", "fail")
+                res.fail(Finding("R-LISTENERS", par.rel, name, norm(val), "a lexer / parser / listener object is created once at import time and shared by all calls", line=val.lineno))
+    # start rule
+    G = grammars(ctx)
+    pv = built["tucanParser"][1]
+    starts = []
+    for fi in clo:
+        lt = ctx.cg.local_types(fi)
+        for n in own_walk(fi.node):
+            if isinstance(n, ast.Call) and isinstance(n.func, ast.Attribute) and isinstance(n.func.value, ast.Name) and not n.args:
+                t = lt.type_of(n.func.value)
+                tname = t if isinstance(t, str) else (t.fq if t is not None else "")
+                if tname.endswith("tucanParser") and (n.func.attr in G.gen.rule_names or n.func.attr.rstrip("_") in G.gen.rule_names):
+                    starts.append((fi, n))
+    if not starts:
+        raise AnalysisError("R-LISTENERS: no start-rule invocation `parser.<rule>()` found")
+    for fi, n in starts:
+        rn = n.func.attr if n.func.attr in G.gen.rule_names else n.func.attr.rstrip("_")
+        ok = G.gen.consumes_eof(rn)
+        res.inst(fi.fq, f"start rule `{rn}` ends in EOF", "ok" if ok else "fail")
+        if not ok:
+            res.fail(Finding("R-LISTENERS", fi.module.rel, fi.qualname, norm(n), f"rule `{rn}` does not end in EOF: trailing text after a valid prefix is silently ignored", line=n.lineno))
+    # the listener is created per call and its state is per instance
+    lis = _listener_impl(ctx)
+    ctor_sites = [(fi, n) for fi in clo for n in own_walk(fi.node) if isinstance(n, ast.Call) and isinstance(n.func, ast.Name) and n.func.id == lis.name]
+    ok = bool(ctor_sites)
+    res.inst(ent.fq, f"listener `{lis.name}()` constructed inside the call ({len(ctor_sites)} site)", "ok" if ok else "fail")
+    if not ok:
+        res.fail(Finding("R-LISTENERS", ent.module.rel, ent.qualname, f"{lis.name}()", "no listener is constructed per call", line=ent.node.lineno))
+    init = lis.methods.get("__init__")
+    if init is not None:
+        for n in own_walk(init.node):
+            if isinstance(n, ast.Assign) and isinstance(n.targets[0], ast.Attribute):
+                v = n.value
+                shared = isinstance(v, ast.Name) and repo.resolve(init.module, v.id) and repo.resolve(init.module, v.id)[0] == "const"
+                res.inst(init.fq, short(n), "fail" if shared else "ok", detail="per-instance state")
+                if shared:
+                    res.fail(Finding("R-LISTENERS", init.module.rel, init.qualname, norm(n), "listener state aliases a module-level object: earlier parses leak into later ones", line=n.lineno))
+    res.trusted = ["ANTLR calls every registered listener's syntaxError on a lexer/parser error; without the default listeners nothing else handles it"]
+    return res
+
+
+@rule("R-HANDLERS")
+def r_handlers(ctx) -> RuleResult:
+    res = RuleResult("R-HANDLERS", "every enter*/exit* method of the listener implementation exists in the generated listener (dispatch is by name); every data-carrying grammar rule lies under a rule that has a handler")
+    lis = _listener_impl(ctx)
+    G = grammars(ctx)
+    gl = ast.parse(ctx.repo.text("tucan/parser/tucanListener.py"))
+    base = next((n for n in gl.body if isinstance(n, ast.ClassDef) and n.name == "tucanListener"), None)
+    if base is None:
+        raise AnalysisError("generated tucanListener class vanished")
+    base_methods = {n.name for n in base.body if isinstance(n, ast.FunctionDef)}
+    handled = set()
+    parent_access: dict[str, set] = {}      # handled rule -> rules it reads through parentCtx
+    for name, m in lis.methods.items():
+        if name.startswith(("enter", "exit")):
+            ok = name in base_methods
+            res.inst(m.fq, f"handler `{name}` exists in the generated listener", "ok" if ok else "fail")
+            if not ok:
+                res.fail(Finding("R-HANDLERS", m.module.rel, m.qualname, name, "handler name is not a method of the generated listener: the parse-tree walker dispatches by name and never calls it", line=m.node.lineno))
+            else:
+                rn = name[5:] if name.startswith("enter") else name[4:]
+                cands = [r for r in G.gen.rule_names if r.capitalize() == rn or (r[:1].upper() + r[1:]) == rn]
+                handled |= set(cands)
+                for x in ast.walk(m.node):
+                    if isinstance(x, ast.Call) and isinstance(x.func, ast.Attribute) and isinstance(x.func.value, ast.Attribute) and x.func.value.attr == "parentCtx":
+                        for c in cands:
+                            parent_access.setdefault(c, set()).add(x.func.attr)
+    # the parser's context classes dispatch with hasattr(listener, "enterX"): names must match the generated parser too
+    if not handled:
+        raise AnalysisError("R-HANDLERS: listener implementation has no handlers")
+    # data-carrying rules, from the generated ATN (what actually runs): rules with a non-punctuation token transition of their own
+    from antlr4.atn.Transition import AtomTransition, SetTransition
+    from ..gram import _interval_members
+    tt = G.token_text()
+    atn = G.gen.patn
+    own: dict[str, set] = {r: set() for r in G.gen.rule_names}
+    for st in atn.states:
+        if st is None:
+            continue
+        for t in st.transitions:
+            if isinstance(t, AtomTransition) and t.label_ > 0:
+                own[G.gen.rule_names[st.ruleIndex]].add(tt.get(t.label_, str(t.label_)))
+            elif isinstance(t, SetTransition):
+                for x in _interval_members(t.label):
+                    if x > 0:
+                        own[G.gen.rule_names[st.ruleIndex]].add(tt.get(x, str(x)))
+    data_rules = {r for r, toks in own.items() if toks - PUNCT}
+    graph = G.gen.rule_graph()
+    # reachability from the start rule without passing through a handled rule
+    seen, work = set(), ["tucan"]
+    uncovered = []
+    while work:
+        r = work.pop()
+        if r in seen or r in handled:
+            continue
+        seen.add(r)
+        if r in data_rules:
+            uncovered.append(r)
+        # children that a handled child reads through parentCtx are covered too
+        via_parent = set()
+        for c in graph.get(r, ()):
+            if c in handled:
+                via_parent |= parent_access.get(c, set())
+        work.extend(x for x in graph.get(r, ()) if x not in via_parent)
+    res.inst(lis.fq, f"data-carrying rules ({len(data_rules)}) all lie under a handled rule {sorted(handled)}", "ok" if not uncovered else "fail")
+    if uncovered:
+        res.fail(Finding("R-HANDLERS", lis.module.rel, lis.name, f"unhandled: {sorted(uncovered)[:6]}",
+                         f"text matched by the rules {sorted(uncovered)[:6]} is never looked at by a handler: that part of the string is silently dropped", line=lis.node.lineno))
+    res.counts = {"handlers": len(handled), "data_rules": len(data_rules)}
+    return res
+
+
+@rule("R-ESCAPE")
+def r_escape(ctx) -> RuleResult:
+    res = RuleResult("R-ESCAPE", "in the TUCAN parser's own code every raise is the parser's exception, and every table look-up / int() / subscript that could raise something else is discharged by a grammar or table fact")
+    repo = ctx.repo
+    lis = _listener_impl(ctx)
+    exc = _parser_exception(ctx)
+    G = grammars(ctx)
+    fis = [m for m in lis.methods.values()] + [f for f in closure(ctx, "parse") if f.module.name == "tucan.parser.parser" and f.cls is None]
+    elem_attrs = repo.try_const("tucan.element_attributes", "ELEMENT_ATTRS", {}) or {}
+    dmap = repo.try_const("tucan.parser.parser", "_DESERIALIZER_NODE_ATTRIBUTE_MAPPING", {}) or {}
+    g_elems = {l for l in literals_of(G.g4, "sum_formula")} - {str(d) for d in range(10)} if "sum_formula" in G.g4 else set()
+    g_keys = literals_of(G.g4, "node_property_key") if "node_property_key" in G.g4 else set()
+
+    def digits_only(rule_name: str) -> bool:
+        if rule_name not in G.g4:
+            return False
+        lits = literals_of(G.g4, rule_name)
+        refs = set()
+        work, seen = [rule_name], set()
+        while work:
+            r = work.pop()
+            if r in seen:
+                continue
+            seen.add(r)
+            for x in rule_refs(G.g4[r]):
+                if x in G.g4_lex:
+                    refs.add(x)
+                elif x in G.g4:
+                    work.append(x)
+        return all(l.isdigit() for l in lits) and refs <= {"GREATER_THAN_NINE"}
+
+    for fi in fis:
+        for n in own_walk(fi.node):
+            if isinstance(n, ast.Raise):
+                e = n.exc
+                callee = e.func if isinstance(e, ast.Call) else e
+                r = repo.resolve_dotted(fi.module, callee) if callee is not None else None
+                ok = bool(r and r[0] == "class" and r[1].fq == exc.fq)
+                res.inst(fi.fq, short(n, 70), "ok" if ok else "fail", detail="raise of the parser's exception")
+                if not ok:
+                    res.fail(Finding("R-ESCAPE", fi.module.rel, fi.qualname, norm(n), f"raises something other than {exc.name}", line=n.lineno))
+            if isinstance(n, ast.Assert):
+                res.inst(fi.fq, short(n, 70), "fail")
+                res.fail(Finding("R-ESCAPE", fi.module.rel, fi.qualname, norm(n), "an assertion in the parser escapes as AssertionError", line=n.lineno))
+            if isinstance(n, ast.Subscript) and isinstance(n.ctx, ast.Load) and isinstance(n.value, ast.Name):
+                tbl = n.value.id
+                if tbl == "ELEMENT_ATTRS":
+                    ok = bool(g_elems) and g_elems <= set(elem_attrs)
+                    res.inst(fi.fq, short(n), "ok" if ok else "fail", detail=f"grammar's {len(g_elems)} element literals ⊆ table keys")
+                    if not ok:
+                        res.fail(Finding("R-ESCAPE", fi.module.rel, fi.qualname, norm(n), f"the grammar accepts element symbols {sorted(g_elems - set(elem_attrs))[:5]} that are not in ELEMENT_ATTRS: KeyError instead of {exc.name}", line=n.lineno))
+                elif tbl == "_DESERIALIZER_NODE_ATTRIBUTE_MAPPING":
+                    ok = bool(g_keys) and g_keys <= set(dmap)
+                    res.inst(fi.fq, short(n), "ok" if ok else "fail", detail=f"grammar's attribute keys {sorted(g_keys)} ⊆ table keys")
+                    if not ok:
+                        res.fail(Finding("R-ESCAPE", fi.module.rel, fi.qualname, norm(n), f"the grammar accepts attribute keys {sorted(g_keys - set(dmap))} the parser's table lacks: KeyError instead of {exc.name}", line=n.lineno))
+            if isinstance(n, ast.Call) and isinstance(n.func, ast.Name) and n.func.id == "int" and n.args:
+                txt = norm(n.args[0])
+                if "getText" not in txt:
+                    continue
+                rule_name = None
+                for r in ("node_index", "node_property_value", "count"):
+                    if f".{r}(" in txt:
+                        rule_name = r
+                if rule_name is None and "getChild(1)" in txt:
+                    # second child of an element context: every element rule is  'X' count?
+                    bad = [r for r, a in G.g4.items() if r not in G.g4_lex and a[0] == "cat" and len(a[1]) == 2 and a[1][0][0] == "tok"
+                           and not (a[1][1][0] == "opt" and a[1][1][1] == ("ref", "count"))]
+                    rule_name = "count" if not bad else None
+                ok = rule_name is not None and digits_only(rule_name)
+                res.inst(fi.fq, short(n), "ok" if ok else "fail", detail=f"text of rule `{rule_name}` is a digit string by the grammar")
+                if not ok:
+                    res.fail(Finding("R-ESCAPE", fi.module.rel, fi.qualname, norm(n), "int() of parse-tree text that the grammar does not restrict to digits: ValueError instead of the parser's exception", line=n.lineno))
+    if len(res.instances) < 6:
+        raise AnalysisError(f"R-ESCAPE: only {len(res.instances)} obligations found in the parser; its shape changed")
+    res.notes.append("index subscripts are discharged by R-ORDERING; positions handed to the error listeners by ANTLR are trusted to lie inside the input")
+    return res
+
+
+# --------------------------------------------------------------------------- R-ALIAS
+
+
+def _is_dict_expr(ctx, fi: FuncInfo, e: Optional[ast.expr], depth=0) -> bool:
+    if e is None or depth > 3:
+        return False
+    if isinstance(e, (ast.Dict, ast.DictComp)):
+        return True
+    if isinstance(e, ast.Call):
+        if isinstance(e.func, ast.Name) and e.func.id == "dict":
+            return True
+        cs = ctx.cg.resolve_call(fi, e, ctx.cg.local_types(fi), set(params_of(fi.node)))
+        if cs.kind == "tucan":
+            ret = annotation_name(cs.target.node.returns) or ""
+            return ret.startswith("dict")
+    if isinstance(e, ast.Name):
+        return _is_dict_expr(ctx, fi, single_def(fi.node, e.id), depth + 1)
+    return False
+
+
+@rule("R-ALIAS")
+def r_alias(ctx) -> RuleResult:
+    res = RuleResult("R-ALIAS", "no attribute dictionary object is stored for two atoms or two bonds: a dictionary created outside a loop/comprehension is copied per insertion")
+    fis = closure(ctx, "parse", "read_text")
+    n = 0
+    for fi in fis:
+        fn = fi.node
+        for x in own_walk(fn):
+            # [d for _ in range(k)] / [d.copy() for ...]
+            if isinstance(x, (ast.ListComp, ast.GeneratorExp)):
+                bound = {nm.id for g in x.generators for nm in ast.walk(g.target) if isinstance(nm, ast.Name)}
+                elt = x.elt
+                if isinstance(elt, ast.Name) and elt.id not in bound and _is_dict_expr(ctx, fi, elt):
+                    n += 1
+                    res.inst(fi.fq, short(x), "fail")
+                    res.fail(Finding("R-ALIAS", fi.module.rel, fi.qualname, norm(x), f"the same dictionary object `{elt.id}` is inserted once per iteration: all these atoms share their attributes", line=x.lineno))
+                elif isinstance(elt, ast.Call) and isinstance(elt.func, ast.Attribute) and elt.func.attr == "copy" and isinstance(elt.func.value, ast.Name) \
+                        and elt.func.value.id not in bound and _is_dict_expr(ctx, fi, elt.func.value):
+                    n += 1
+                    res.inst(fi.fq, short(x), "ok", detail="copied per element")
+            if isinstance(x, (ast.DictComp,)):
+                bound = {nm.id for g in x.generators for nm in ast.walk(g.target) if isinstance(nm, ast.Name)}
+                if isinstance(x.value, ast.Name) and x.value.id not in bound and _is_dict_expr(ctx, fi, x.value):
+                    n += 1
+                    res.inst(fi.fq, short(x), "fail")
+                    res.fail(Finding("R-ALIAS", fi.module.rel, fi.qualname, norm(x), f"the same dictionary object `{x.value.id}` becomes the value of every key", line=x.lineno))
+            if isinstance(x, (ast.For, ast.While)):
+                rebound = set()
+                for y in ast.walk(x):
+                    if isinstance(y, (ast.Assign, ast.AnnAssign, ast.AugAssign)):
+                        tg = y.targets[0] if isinstance(y, ast.Assign) else y.target
+                        for nm in ast.walk(tg):
+                            if isinstance(nm, ast.Name) and isinstance(nm.ctx, ast.Store):
+                                rebound.add(nm.id)
+                    if isinstance(y, ast.For):
+                        for nm in ast.walk(y.target):
+                            if isinstance(nm, ast.Name):
+                                rebound.add(nm.id)
+                if isinstance(x, ast.For):
+                    for nm in ast.walk(x.target):
+                        if isinstance(nm, ast.Name):
+                            rebound.add(nm.id)
+                for y in ast.walk(x):
+                    val = None
+                    if isinstance(y, ast.Assign) and isinstance(y.targets[0], ast.Subscript):
+                        val = y.value
+                    elif isinstance(y, ast.Call) and isinstance(y.func, ast.Attribute) and y.func.attr in ("append", "add", "setdefault", "insert") and y.args:
+                        val = y.args[-1]
+                    if val is None:
+                        continue
+                    if isinstance(val, ast.Name) and val.id not in rebound and _is_dict_expr(ctx, fi, val):
+                        n += 1
+                        res.inst(fi.fq, short(y), "fail")
+                        res.fail(Finding("R-ALIAS", fi.module.rel, fi.qualname, norm(y), f"the dictionary `{val.id}` created outside the loop is stored on every iteration without a copy: the entries share one object", line=y.lineno))
+                    elif isinstance(val, ast.Call) and isinstance(val.func, ast.Attribute) and val.func.attr == "copy" and isinstance(val.func.value, ast.Name) \
+                            and _is_dict_expr(ctx, fi, val.func.value):
+                        n += 1
+                        res.inst(fi.fq, short(y), "ok", detail="copied per insertion")
+    if n < 2:
+        raise AnalysisError(f"R-ALIAS: only {n} per-atom / per-bond dictionary insertions recognised (idiom changed)")
+    res.counts = {"insertion_sites": n}
+    return res
